@@ -27,8 +27,8 @@ def grids(tier):
     g = {
         "gauss": [(100, 20), (5000, 50), (10, 3), (150, 200)],
         "uniform": [(12, 72), (500, 600), (0, 10)],
-        "schulz_zimm": [(1500, 1000), (5000, 4500), (30, 20), (12, 8)],
-        "log_normal": [(50, 1.1), (800, 1.5), (20, 2.0)],
+        "schulz_zimm": [(1500, 1000), (1500, 1400), (5000, 4500), (30, 20), (12, 8)],
+        "log_normal": [(50, 1.1), (800, 1.5), (800, 1.1), (20, 2.0)],
         "poisson": [(65,), (3,), (400,)],
         "flory_schulz": [(0.1,), (0.5,), (0.02,)],
     }
@@ -67,16 +67,23 @@ def run(tier):
         records.append(rec)
         meta.append((fam, par, what))
 
+    # every distribution object is created first and evaluated afterwards: several objects of one family are alive together,
+    # as in a molecule with several blocks (a law must not depend on which other distributions exist)
+    made = {}
     for fam, plist in grids(tier).items():
         for par in plist:
+            try:
+                made[(fam, par)] = get_distribution(text(fam, par))
+            except Exception as exc:
+                v.violation(f"C11:valid-distribution-rejected:{fam}", f"get_distribution({text(fam, par)!r}) raises {type(exc).__name__}: {exc}", {"text": text(fam, par)})
+    for fam, plist in grids(tier).items():
+        for par in plist:
+            if (fam, par) not in made:
+                continue
             n_dists += 1
             ref = R.law(fam, par)
             t = text(fam, par)
-            try:
-                d = get_distribution(t)
-            except Exception as exc:
-                v.violation(f"C11:valid-distribution-rejected:{fam}", f"get_distribution({t!r}) raises {type(exc).__name__}: {exc}", {"text": t})
-                continue
+            d = made[(fam, par)]
             reg = region(fam, par, ref)
             discrete_impl = fam in ("poisson", "flory_schulz", "schulz_zimm")       # how the implementation treats the family
             # support grid
